@@ -10,4 +10,4 @@ RULE = ("family `srv` (gate mode): for every gated request, negotiation historie
         "scenarios in which at least one handler call or one refusal of a gated request was observed. family `fe` (peer mode): the real "
         "Frontend with random negotiation prefixes and every gated API call; a refused call must leave the wire untouched.")
 ASSUMPTIONS = ["the handler script stands for any application handler", "little-endian host"]
-FAMILIES = [SrvFamily(modes=("gate",)), FeFamily(modes=("peer",), quick=(0, 2500, 0), thorough=(0, 40000, 0))]
+FAMILIES = [SrvFamily(modes=("gate",)), FeFamily(modes=("gate", "peer"), quick=(0, 2000, 0), thorough=(0, 40000, 0))]
